@@ -204,6 +204,13 @@ def window_args(window):
             return date(2024, 6, 1), date(2024, 6, 1)
         if kind == "two-days":
             return date(2024, 6, 1), date(2024, 6, 2)
+        # bounds that fall on the very day one of the used zones changes its offset (Berlin 2024-03-31 / 2024-10-27, New York
+        # 2024-03-10 / 2024-11-03), as the only change of that kind in the window
+        sw = {"to-switch-a": (date(2024, 1, 1), date(2024, 3, 31)), "to-switch-b": (date(2024, 6, 1), date(2024, 11, 3)),
+              "on-switch-a": (date(2024, 3, 31), date(2024, 3, 31)), "from-switch-a": (date(2024, 10, 27), date(2024, 12, 1)),
+              "from-switch-b": (date(2024, 3, 10), date(2024, 10, 1)), "switch-to-switch": (date(2024, 3, 10), date(2024, 10, 27))}
+        if kind in sw:
+            return sw[kind]
         raise AssertionError(kind)
     return window
 
@@ -343,7 +350,8 @@ def run(ctx):
         for provider in env.PROVIDERS:
             for placements in list(subsets(pl, 1)) + [("P1", "P2"), ("P5", "P9")]:
                 for presets in ((), ("tzA",)):
-                    for kind in ("naive", "aware-utc", "aware-zoned", "same-day", "same-date", "two-days"):
+                    for kind in ("naive", "aware-utc", "aware-zoned", "same-day", "same-date", "two-days", "to-switch-a", "to-switch-b", "on-switch-a",
+                                 "from-switch-a", "from-switch-b", "switch-to-switch"):
                         yield ("c", provider, "parse", placements, presets, (kind,))
 
     ctx.explore("calendars x histories", gen, run_case)
